@@ -7,6 +7,9 @@
    order — regenerated from the source by harness/cmd/xlate_logconc and compared by eq_refl):
 
      ILoad            reg := cell                              (atomic.Pointer.Load)
+     IRead            reg := cell, and that is all the operation does to the cell: a read-only
+                      operation (ChildLogger: lh.Load().With(..) goes into a FRESH holder); it is
+                      linearised at this Load
      IStore f         cell := f(reg)                           (atomic.Pointer.Store)
      ICas f k         if cell is still the pointer in reg then cell := f(reg)
                       else goto k                              (CompareAndSwap in a retry loop)
@@ -25,7 +28,7 @@ Section Machine.
   Variable pure : F -> O -> V -> V.          (* value derived from the loaded one *)
   Variable ident : F -> O -> bool.           (* the derived pointer IS the loaded pointer *)
 
-  Inductive instr := ILoad | IStore (f : F) | ICas (f : F) (retry : nat).
+  Inductive instr := ILoad | IStore (f : F) | ICas (f : F) (retry : nat) | IRead.
 
   Variable prog : O -> list instr.
 
@@ -50,6 +53,7 @@ Section Machine.
         match nth_error (prog o) (t_pc th) with
         | None => (cell, next, {| t_ops := rest; t_pc := 0; t_reg := t_reg th |}, None)
         | Some ILoad => (cell, next, advance th o rest (S (t_pc th)) cell, None)
+        | Some IRead => (cell, next, advance th o rest (S (t_pc th)) cell, Some o)
         | Some (IStore f) =>
             let '(c', n') := new_ptr next f o (t_reg th) in
             (c', n', advance th o rest (S (t_pc th)) (t_reg th), Some o)
@@ -90,6 +94,16 @@ Section Machine.
         (st2, ev ++ tr)
     end.
 
+  (* the cell value at every linearisation point, in linearisation order (index-aligned with
+     the trace of [run]): the value an update installed, the value a read-only operation saw *)
+  Fixpoint run_vals (st : mstate) (sched : list nat) : list V :=
+    match sched with
+    | [] => []
+    | t :: rest =>
+        let '(st1, ev) := step st t in
+        map (fun _ => snd (m_cell st1)) ev ++ run_vals st1 rest
+    end.
+
   (* the cell value after every step of the schedule (what the replay harness observes) *)
   Fixpoint run_obs (st : mstate) (sched : list nat) : list V :=
     match sched with
@@ -126,6 +140,7 @@ End Machine.
 Arguments ILoad {F}.
 Arguments IStore {F} f.
 Arguments ICas {F} f retry.
+Arguments IRead {F}.
 Arguments t_ops {O V}.
 Arguments t_pc {O V}.
 Arguments t_reg {O V}.
